@@ -24,14 +24,39 @@ BIG = 2_000_000_000
 LEVELS = [1e-8, 1e-4, 0.01, 0.1, 0.3, 0.5, 0.7, 0.9, 0.99, 1 - 1e-4, 1 - 1e-8]
 
 
+# Named deterministic models (explicit descriptions; stable violation keys).  They exercise the
+# regime the random integral models avoid: a density whose mass is narrow relative to its distance
+# from 0 -- marginal_pdf / marginal_cdf integrate the other variables over (0, inf).
+NAMED = {
+    "narrow-conditioning-variable": {
+        "n_dim": 2, "cond": [None, 0], "families": ["lognormal", "lognormal"], "shapes": [0, 2],
+        "dims": [{"family": "lognormal", "params": {"mu": 3.0, "sigma": 0.05}},
+                 {"family": "lognormal", "fixed": {"sigma": 0.5}, "deps": {"mu": ["linear", [0.0, 0.1]]}}]},
+    "weibull-location-grows-with-given": {
+        "n_dim": 3, "cond": [None, 0, 0], "families": ["lognormfit", "weibull", "expweibull"], "shapes": [0, 2, 3],
+        "dims": [{"family": "lognormfit", "params": {"mu_norm": 1.1373217746444433, "sigma_norm": 1.0031781629401548}},
+                 {"family": "weibull", "fixed": {"beta": 2.3009949584872906},
+                  "deps": {"alpha": ["const", [2.6532198704821592]],
+                           "gamma": ["abslinear", [0.832703571778708, 0.8973416102447995]]}},
+                 {"family": "expweibull", "fixed": {},
+                  "deps": {"alpha": ["const", [2.8359691248985235]],
+                           "beta": ["asym3", [1.5868618684866707, 0.8232315838043578, 0.4135807372746333]],
+                           "delta": ["asym3", [1.2614442729264081, 0.9975394235280233, 1.375150967200447]]}}]},
+}
+
+
 def get_model(c):
     vc = import_virocon()
+    if c.get("named"):
+        return M.from_description(vc, NAMED[c["named"]])
     desc = M.describe(np.random.default_rng(c["seed"]), c["n_dim"], c["cond"], c["families"], c["sh"],
                       spec=M.SPEC_SMOOTH if c.get("smooth") else None)
     return M.from_description(vc, desc)
 
 
 def model_key(c):
+    if c.get("named"):
+        return f"named={c['named']}"
     return (f"n_dim={c['n_dim']} cond={c['cond']} families={','.join(c['families'])} shapes={c['sh']} "
             f"seed={c['seed']}")
 
@@ -256,7 +281,8 @@ def integral_task(c):
         raise
     except Exception as e:  # noqa
         rec = _int_rec(what, 0, 0, isint, exc=f"{type(e).__name__}: {e}"[:200])
-    key = f"{what}{'' if dim is None else ' dim=%d' % dim}{' int-input' if isint else ''} levels={c['levels']} " + model_key(c)
+    key = (f"{what}{'' if dim is None else ' dim=%d' % dim}{' int-input' if isint else ''} "
+           + ("" if c.get("named") else f"levels={c['levels']} ") + model_key(c))
     return [dict(rec=rec, key=key, nontrivial=rec["ref"] > 0, case=c, secs=round(time.time() - t0, 1))]
 
 
@@ -324,11 +350,11 @@ def make_tasks(ctx, cfgs):
     cond2 = [c for c in by_n[2] if c["cond"][1] == 0 and c["sh"][1] != 1]
     ind2 = [c for c in by_n[2] if c["cond"][1] is None]
     lv2 = [[0.5, 0.5], [0.9, 0.2], [0.3, 0.95], [0.999, 0.99], [0.05, 0.6]]
-    n2 = ctx.pick(5, 24)
+    n2 = ctx.pick(8, 20)
     for k in range(n2):
         cfg = cond2[(k + ctx.seed) % len(cond2)] if k % 4 != 3 else ind2[k % len(ind2)]
         b = base(cfg, smooth=True)
-        npts = ctx.pick(2, 4)
+        npts = ctx.pick(2, 3)
         for j in range(npts):
             lv = lv2[(k + j) % len(lv2)]
             slow.append(dict(b, task="integral", what="cdf", levels=lv))
@@ -346,7 +372,7 @@ def make_tasks(ctx, cfgs):
         slow.append(dict(b, task="icdf", dim=0, ps=[0.01, 0.5, 0.999]))
     # 3-D: marginal_pdf of dimension 1 uses the argument order [2, 0, 1] (not its own inverse)
     c3 = [c for c in by_n[3] if c["cond"][1] == 0 and c["cond"][2] is not None and 1 not in c["sh"][1:]]
-    n3 = ctx.pick(3, 12)
+    n3 = ctx.pick(4, 10)
     for k in range(n3):
         cfg = c3[(k * 7 + ctx.seed) % len(c3)]
         b = base(cfg, smooth=True)
@@ -354,14 +380,23 @@ def make_tasks(ctx, cfgs):
         slow.append(dict(b, task="integral", what="marginal_pdf", dim=1, levels=lv))
         slow.append(dict(b, task="integral", what="marginal_pdf", dim=2, levels=lv))
         if not ctx.quick:
-            slow.append(dict(b, task="integral", what="marginal_cdf", dim=1, levels=lv))
-            slow.append(dict(b, task="integral", what="marginal_cdf", dim=2, levels=lv))
-            slow.append(dict(b, task="integral", what="cdf", levels=lv))
             slow.append(dict(b, task="integral", what="marginal_pdf", dim=1, levels=lv, isint=True))
             slow.append(dict(b, task="icdf", dim=2, ps=[0.05, 0.5, 0.99]))
+            if k < 2:      # three nested levels of nquad: many minutes each, started first
+                slow.append(dict(b, task="integral", what="marginal_cdf", dim=1, levels=lv, heavy=True))
+                slow.append(dict(b, task="integral", what="cdf", levels=lv, heavy=True))
+    # named deterministic cases (stable keys)
+    nb = dict(n_dim=2, cond=[None, 0], sh=[0, 2], families=["lognormal", "lognormal"], seed=0, smooth=False,
+              named="narrow-conditioning-variable")
+    slow.append(dict(nb, task="integral", what="marginal_pdf", dim=1, levels=[0.5, 0.5]))
+    slow.append(dict(nb, task="integral", what="mass", dim=1, levels=[0.5, 0.5]))
+    nb3 = dict(n_dim=3, cond=[None, 0, 0], sh=[0, 2, 3], families=["lognormfit", "weibull", "expweibull"], seed=0,
+               smooth=False, named="weibull-location-grows-with-given")
+    if not ctx.quick:       # one call of ~60 s
+        slow.append(dict(nb3, task="integral", what="marginal_pdf", dim=2, levels=[0.8, 0.3, 0.7], heavy=True))
     # longest calls first (measured: far-corner mass 15-65 s, 3-D marginals 10-25 s, 2-D cdf 10-30 s)
     cost = {"mass": 0, "cdf": 2, "marginal_cdf": 3, "marginal_pdf": 5}
-    slow.sort(key=lambda t: (1 if t["n_dim"] == 3 else cost.get(t.get("what"), 4)))
+    slow.sort(key=lambda t: (-1 if t.get("heavy") else 1 if t["n_dim"] == 3 else cost.get(t.get("what"), 4)))
     # ... but one call of every kind goes first, so that a loaded machine cannot make a kind vacuous
     first, seen = [], set()
     for t in sorted(slow, key=lambda t: -cost.get(t.get("what"), 4)):
@@ -369,7 +404,9 @@ def make_tasks(ctx, cfgs):
         if k not in seen:
             seen.add(k)
             first.append(t)
-    slow = first + [t for t in slow if all(t is not f for f in first)]
+    heavy = [t for t in slow if t.get("heavy")]
+    first = [t for t in first if not t.get("heavy")]
+    slow = heavy + first + [t for t in slow if all(t is not f for f in first + heavy)]
     return pdf_tasks, slow
 
 
@@ -446,13 +483,15 @@ def run(ctx):
                 "(2-D x4/x12, 3-D x1/x3), 9/30 points "
                 "per model (bulk, tails, below support, integer-valued) in 8 input kinds; integrals: conditional 2-D "
                 "models (and independent ones) at 2-4 probability-level points, 3-D marginal_pdf of dimensions 1 "
-                "and 2 (thorough also 3-D cdf / marginal_cdf); distinct = distinct (call, point, model); "
+                "and 2 (thorough also two 3-D cdf / marginal_cdf calls); distinct = distinct (call, point, model); "
                 "non-trivial = reference value > 0 (pdf: and a dependence that varies with the given)")
     ctx.trusted = ["TLC evaluating spec/Trace_C06.tla", "scipy.integrate.quad as reference quadrature over the "
                    "model's own conditional pdf/cdf (break points at quantiles, epsrel 1e-11)",
                    "the model's own distributions[i].pdf/cdf/icdf as the conditional pieces (as the property states)"]
-    ctx.assumptions = ["integral comparisons use bounded densities (Weibull beta >= 1.3 etc., models.SPEC_SMOOTH): "
-                       "with an integrable singularity neither nquad nor the reference reaches 1e-6",
+    ctx.assumptions = ["integral comparisons on RANDOM models use quadrature-friendly parameters (models.SPEC_SMOOTH): "
+                       "bounded densities (Weibull beta >= 1.3 ...) and no location-like parameter that grows with "
+                       "the given; the regime outside (mass narrow relative to its distance from 0, where "
+                       "integration over (0, inf) loses it) is covered by the named cases of c06.NAMED",
                        "model.cdf integrates from 0: non-negative families only",
                        "integral calls that do not finish within the wall-clock budget are dropped (count in notes)"]
     ctx.model_check("Rosenblatt", ctx.pick("MC_Rosenblatt_c06_quick.cfg", "MC_Rosenblatt_c06_thorough.cfg"),
@@ -466,7 +505,7 @@ def run(ctx):
     res_pdf = M.pmap(run_task, pdf_tasks, workers=ctx.pick(4, 8))
     ctx.log(f"pdf: {len(pdf_tasks)} models evaluated in {time.time() - t0:.1f}s")
     t0 = time.time()
-    res_slow = M.pmap_deadline(run_task, slow, workers=ctx.pick(12, 14), deadline_s=ctx.pick(85, 1080))
+    res_slow = M.pmap_deadline(run_task, slow, workers=ctx.pick(12, 14), deadline_s=ctx.pick(85, 960))
     dropped = sum(1 for r in res_slow if r is None)
     ctx.log(f"integrals: {len(slow)} calls, {dropped} not finished within the budget, {time.time() - t0:.1f}s")
     recs, meta, failing = judge(ctx, list(res_pdf) + [r for r in res_slow if r is not None], "pdf + integrals")
